@@ -85,7 +85,9 @@ def run_canaries(prop):
             if c["expect"] == "violation":
                 ok = p.returncode == 1 and (not c.get("obligation") or any(c["obligation"] in f for f in failed))
             else:
-                ok = p.returncode == 0
+                # a harmless change must never raise an alarm; an entry may allow "undecided" (exit 2) where a refactoring moves a loop
+                # away from its ordinal-keyed sidecar invariant
+                ok = p.returncode in c.get("expect_exit", [0]) and not any(ln.startswith("VIOLATION") for ln in p.stdout.splitlines())
             out.append({"name": c["name"], "expect": c["expect"], "exit": p.returncode, "ok": ok, "failed_obligations": failed[:4]})
         finally:
             shutil.rmtree(scratch, ignore_errors=True)
@@ -277,10 +279,13 @@ def main(argv=None):
     print(f"[{prop}] obligations={n_ob} discharged={n_dis} bounded={n_bounded} known={len(known_hits)} "
           f"violations={len(violations)} undecided={len(undecided)} errors={len(crashes)} paths={paths} "
           f"solver={solver_s:.1f}s wall={wall:.1f}s")
+    if violations:
+        # a refuted obligation (with the solver's model, replayed natively) stands on its own: a scenario that crashed or stayed
+        # undecided elsewhere (typically because the changed code no longer has the loop structure a sidecar invariant names) does
+        # not take it back.  On the unchanged tree there is neither.
+        return 1
     if crashes:
         return 3
-    if violations:
-        return 1
     if undecided:
         return 2
     if (n_ob == 0 or n_dis == 0) and not args.only:
